@@ -9,7 +9,7 @@ from . import engine, env, models
 from . import refsensors as rs
 
 ET_REFUSABLE = ["battery", "battery2", "meter_ext", "meter_ext2", "mppt", "eco_v2", "peak_shaving"]
-POWER_CLASSES = [5000, 20000, 30000]
+POWER_CLASSES = [20000, 5000, 30000]       # (big, small, big: objects of one series on both sides of the 15 kW / 25 kW limits, both orders)
 
 
 def tag_lists(g):
@@ -53,7 +53,7 @@ def et_configs(g, tier):
 
 def dt_configs(g, tier):
     for tag in tag_lists(g)["DT"]:
-        for refused in ([], ["meter"]):
+        for refused in ([], ["meter"], ["meter_version"], ["meter", "meter_version"]):
             yield {"family": "DT", "tag": tag, "rated": 0, "refused": refused, "battery": 0}
 
 
